@@ -11,7 +11,7 @@ EXPLANATION = ('Static rules on the two-input operators: M0 both inputs are wire
                'slot empty); M2 merge/combine_latest/zip complete downstream only on the second completion (first completion only sets the '
                'flag); M3 take_until completes the main slot on the notifier\'s first item and ignores the notifier\'s own terminal, '
                'skip_until opens the gate on a notifier item only; M4 sample and buffer move the gathered data out before emitting it '
-               '(no duplication on the next tick); M6 the source side of sample never emits (values are released by notifier events only); M5 zip\'s pending queues are first-in-first-out (necessary for pairing the i-th items); M7 latest-value flow, by provenance dataflow: combine_latest stores the incoming item first and combines it with the other side\'s stored value; with_latest_from pairs the incoming item with the stored secondary value and its secondary observer only stores; sample stores on the source side and releases+empties on a tick; merge forwards the incoming item unchanged. Does not decide pairing, latest-value selection or per-interleaving outputs.')
+               '(no duplication on the next tick); M6 the source side of sample never emits (values are released by notifier events only); M5 zip\'s pending queues are first-in-first-out (necessary for pairing the i-th items); M7 latest-value flow, by provenance dataflow: combine_latest stores the incoming item first and combines it with the other side\'s stored value; with_latest_from pairs the incoming item with the stored secondary value and its secondary observer only stores; sample stores on the source side and releases+empties on a tick; merge forwards the incoming item unchanged; M8 when the closing notifier of buffer() or the sampler of sample() completes, what was gathered since the last tick is released before the completion (skipped only when nothing is gathered). Does not decide pairing, latest-value selection or per-interleaving outputs.')
 ASSUMPTIONS = ['the interleaving of the two inputs is arbitrary; only per-event handlers are analysed']
 
 SHARED = ['MutRc<ops::merge::MergeObserver>', 'MutArc<ops::merge::MergeObserver>',
@@ -31,7 +31,7 @@ CONTROLS = [
 
 
 def check(cx):
-    return m0(cx) + m1(cx) + m2(cx) + m3(cx) + m4(cx) + m5(cx) + m6(cx) + m7(cx)
+    return m0(cx) + m1(cx) + m2(cx) + m3(cx) + m4(cx) + m5(cx) + m6(cx) + m7(cx) + m8(cx)
 
 
 def m0(cx):
@@ -369,4 +369,54 @@ def m7(cx):
         for w in want:
             if not any(w in t for t in seen):
                 res.append(Finding(ID, 'M7', 'table:' + w, False, 'operator not found (fail closed)'))
+    return res
+
+
+M8_TAGS = ['ops::buffer::NotifierObserver', 'ops::sample::SampleObserver']
+
+
+def m8(cx):
+    """completion of the notifier side releases what was gathered (no loss at the end)"""
+    from .. import prov as P
+    res = []
+    if cx.control:
+        return res
+    seen = set()
+    for im in cx.observer_impls():
+        tag = roles.impl_tag(cx, im)
+        if tag not in M8_TAGS:
+            continue
+        seen.add(tag)
+        fn = cx.method(im, 'complete')
+        g = cx.graph(fn['key'])
+        bad = None
+        if tag == 'ops::buffer::NotifierObserver':
+            # the notifier shares the buffer observer with the source: it must end the stream through that observer's own
+            # complete() (which flushes, C09.R-c), not by reaching into it and completing its downstream directly
+            for x in g.nodes:
+                if down_method(x) == 'complete' and x['args']:
+                    root, steps = access_path(x['args'][0])
+                    after = steps[steps.index('!take') + 1:] if '!take' in steps else steps
+                    if any(not st.startswith(('as ', '@', '!', '[')) and st != '0' for st in after) or ('!take' not in steps and any(st == '@' for st in steps) and steps[-1] != '@'):
+                        bad = 'the notifier completes the downstream of the shared buffer observer directly instead of through the buffer observer\'s own complete(): what was gathered since the last tick is lost'
+            res.append(Finding(ID, 'M8', cx.label(fn), not bad, bad or 'ends the stream through the buffer observer\'s own complete() (which flushes first)', fn['span']))
+            continue
+        sums, _ = P.summaries(g, item_arg=0)
+        for sm, key in sums:
+            if not P.emits(sm, 'complete'):
+                continue
+            ne = P.emits(sm, 'next')
+            if ne:
+                if any(P.decided(e[2]) and not P.mentions_v(e[2], lambda x: x[0] == 'old') for e in ne):
+                    bad = 'the value released at completion is not the gathered content'
+                continue
+            nothing = any((t[0] == 'pure' and t[1] == 'is_empty' and v == 1) or (t[0] == 'discr' and v == 0) or
+                          (t[0] == 'op' and t[1] in ('Eq',) and v == 1 and P.mentions_v(t, lambda x: x[0] == 'pure' and x[1] == 'len'))
+                          for t, v in sm['conds'])
+            if not nothing:
+                bad = 'completes downstream without releasing what was gathered since the last tick, on a path that never found it empty: the last items are lost'
+        res.append(Finding(ID, 'M8', cx.label(fn), not bad, bad or 'the gathered content is released before the completion (skipped only when empty)', fn['span']))
+    for t in M8_TAGS:
+        if t not in seen:
+            res.append(Finding(ID, 'M8', 'table:' + t, False, 'observer not found (fail closed)'))
     return res
